@@ -51,6 +51,12 @@ def isEqualAt (c : List Nat) : Nat → List Nat → Except Fault Bool
     let ch ← rd c off
     if ch = x then isEqualAt c (off + 1) xs else .ok false
 
+/-- `(cond) && StringUtils::IsEqual(content + off, s, |s|)` with the short-circuit of `&&`: the
+comparison (and its reads) happens only when `cond` holds.  (Written as a function because Lean's
+`do` notation would lift a nested `(← isEqualAt …)` in front of the `&&`.) -/
+def andEqualAt (cond : Bool) (c : List Nat) (off : Nat) (s : List Nat) : Except Fault Bool :=
+  if cond then isEqualAt c off s else .ok false
+
 /-- `StringUtils::IsEqual(content + a, content + b, n)` -/
 def isEqualRange (c : List Nat) : Nat → Nat → Nat → Except Fault Bool
   | 0, _, _ => .ok true
@@ -59,23 +65,32 @@ def isEqualRange (c : List Nat) : Nat → Nat → Nat → Except Fault Bool
     let y ← rd c b
     if x = y then isEqualRange c n (a + 1) (b + 1) else .ok false
 
-/-- `checkLoopVariable(content, tag, loop_tag)` → `(IDLength, Level)` -/
-def checkLoopVariable (c : List Nat) (varOff : Nat) : List LoopRef → Except Fault (Nat × Nat)
-  | [] => .ok (0, 0)
+/-- `checkLoopVariable(content, tag, loop_tag)`: `some (IDLength, Level)` when an enclosing loop's
+value name matches (the C++ writes the two fields only then), `none` otherwise -/
+def checkLoopVariable (c : List Nat) (varOff : Nat) : List LoopRef → Except Fault (Option (Nat × Nat))
+  | [] => .ok none
   | l :: rest => do
-    if ← isEqualRange c l.valueLen varOff l.valueStart then .ok (l.valueLen, l.level)
+    if ← isEqualRange c l.valueLen varOff l.valueStart then .ok (some (l.valueLen, l.level))
     else checkLoopVariable c varOff rest
 
-/-- the pure variant handed to the expression scanner (a faulting read inside it is reported by
-`exprFault` below before the scanner runs) -/
+/-- the pure variant handed to the expression scanner (fresh, zero-initialised `VariableTag`) -/
 def loopVarPure (c : List Nat) (chain : List LoopRef) (o : Nat) : Nat × Nat :=
   match checkLoopVariable c o chain with
-  | .ok r => r
-  | .error _ => (0, 0)
+  | .ok (some r) => r
+  | _ => (0, 0)
 
+/-- a freshly inserted (zero-initialised) variable tag -/
 def mkVar (c : List Nat) (chain : List LoopRef) (off len : Nat) : Except Fault VarRef := do
-  let (idLen, level) ← checkLoopVariable c off chain
-  .ok ⟨off, len, idLen, level⟩
+  match ← checkLoopVariable c off chain with
+  | some (idLen, level) => .ok ⟨off, len, idLen, level⟩
+  | none => .ok ⟨off, len, 0, 0⟩
+
+/-- `tag.Set.Offset = …; tag.Set.Length = …; checkLoopVariable(content, tag.Set, tag.Parent)` on the
+EXISTING `Set` record: `IDLength`/`Level` of an earlier assignment survive when nothing matches -/
+def setVar (c : List Nat) (chain : List LoopRef) (old : VarRef) (off len : Nat) : Except Fault VarRef := do
+  match ← checkLoopVariable c off chain with
+  | some (idLen, level) => .ok ⟨off, len, idLen, level⟩
+  | none => .ok ⟨off, len, old.idLen, old.level⟩
 
 def finderNext (c : List Nat) (st : PState R) : Except Fault (PState R) := do
   let (o, m) ← next c st.off
@@ -115,16 +130,16 @@ def parseLoopAttributes (c : List Nat) (endO : Nat) (parentChain : List LoopRef)
         let ch ← rd c off
         if ch = W1.setSortChar then
           let tmp := endO - off
-          if tmp > W1.setLength && (← isEqualAt c off W1.setStr) then pure (some (off + W1.setLength, LoopAtt.set))
-          else if tmp > W1.sortLength && (← isEqualAt c off W1.sortStr) then
+          if (← andEqualAt (decide (tmp > W1.setLength)) c off W1.setStr) then pure (some (off + W1.setLength, LoopAtt.set))
+          else if (← andEqualAt (decide (tmp > W1.sortLength)) c off W1.sortStr) then
             pure (some (off + W1.sortLength, LoopAtt.sort))
           else pure (some (off + 1, att0))
         else if ch = W1.valueChar then
-          if endO - off > W1.valueLength && (← isEqualAt c off W1.valueStr) then
+          if (← andEqualAt (decide (endO - off > W1.valueLength)) c off W1.valueStr) then
             pure (some (off + W1.valueLength, LoopAtt.value))
           else pure (some (off + 1, att0))
         else if ch = W1.groupChar then
-          if endO - off > W1.groupLength && (← isEqualAt c off W1.groupStr) then
+          if (← andEqualAt (decide (endO - off > W1.groupLength)) c off W1.groupStr) then
             pure (some (off + W1.groupLength, LoopAtt.group))
           else pure (some (off + 1, att0))
         else pure none
@@ -142,7 +157,7 @@ def parseLoopAttributes (c : List Nat) (endO : Nat) (parentChain : List LoopRef)
         let off ← doSkipW c endO (· != quote) off
         let tag ← (match att with
           | .set => do
-            let v ← mkVar c parentChain attOff (trunc bits_VariableTag_Length (off - attOff))
+            let v ← setVar c parentChain tag.set attOff (trunc bits_VariableTag_Length (off - attOff))
             pure { tag with set := v }
           | .value => pure { tag with valueOff := trunc bits_LoopTag_ValueOffset (attOff - tag.off),
                                       valueLen := trunc bits_LoopTag_ValueLength (off - attOff) }
@@ -160,7 +175,7 @@ def parseLoopAttributes (c : List Nat) (endO : Nat) (parentChain : List LoopRef)
 
 def parseIfCase (c : List Nat) (off0 endO : Nat) : Except Fault (Nat × Nat × Nat) := do
   let off ← skipW c endO (· == W1.spaceChar) off0
-  if off < endO && endO - off > W1.caseLength && (← isEqualAt c off W1.caseStr) then
+  if (← andEqualAt (decide (off < endO) && decide (endO - off > W1.caseLength)) c off W1.caseStr) then
     let off := off + W1.caseLength
     let off ← skipW c endO (· != W1.equalChar) off
     let off ← doSkipW c endO (· == W1.spaceChar) off
@@ -190,10 +205,10 @@ def iifAttrs (c : List Nat) (endO : Nat) (trueOffset : Nat) :
       -- `some (off, tru)` = go on with the attribute; `none` = `break`
       let hd : Option (Nat × Bool) ← (do
         if ch = W1.trueChar then
-          if endO - off > W1.trueLength && (← isEqualAt c off W1.trueStr) then
+          if (← andEqualAt (decide (endO - off > W1.trueLength)) c off W1.trueStr) then
             pure (some (off + W1.trueLength, true))
           else pure (some (off, tru0))
-        else if ch = W1.falseChar && endO - off > W1.falseLength && (← isEqualAt c off W1.falseStr) then
+        else if (← andEqualAt (decide (ch = W1.falseChar) && decide (endO - off > W1.falseLength)) c off W1.falseStr) then
           pure (some (off + W1.falseLength, tru0))
         else pure none)
       match hd with
@@ -231,6 +246,23 @@ def subTagOffset : Tag R → Option Nat
   | .math _ off _ => some off
   | _ => none
 
+/-- the content range of a sub tag for the test added in bc59b89 (`none`: not allowed there) -/
+def subTagRange : Tag R → Option (Nat × Nat)
+  | .var v => some (v.off - W1.variablePrefixLength, v.off + v.len + W1.inLineSuffixLength)
+  | .raw v => some (v.off - W1.variablePrefixLength, v.off + v.len + W1.inLineSuffixLength)
+  | .math _ off endOff => some (off, endOff)
+  | _ => none
+
+/-- the sub tag sits inside the value of `true` or inside the value of `false` -/
+def insideValues (f : IifFields) (t : Tag R) : Bool :=
+  match subTagRange t with
+  | none => false
+  | some (s, e) =>
+    let tS := f.off + f.trueOff
+    let fS := f.off + f.falseOff
+    decide (s ≤ e) &&
+      ((decide (tS ≤ s) && decide (e ≤ tS + f.trueLen)) || (decide (fS ≤ s) && decide (e ≤ fS + f.falseLen)))
+
 /-- the `while (s_tag < s_tag_end)` loop: `(id, skip)` -/
 def startIdScan (firstOffset : Nat) : List (Tag R) → Nat → Nat × Bool
   | [], id => (id, false)
@@ -255,11 +287,15 @@ def closeIif (c : List Nat) (st : PState R) (pre : List (Tag R)) (cs : List (Ite
   if f.trueOff ≠ 0 ∨ f.falseOff ≠ 0 then
     let firstOffset := (if f.trueOff < f.falseOff then f.falseOff else f.trueOff) + f.off
     let (id, skip) := startIdScan firstOffset sub 0
+    -- bc59b89: when the tag is final, every sub tag has to lie inside the value of `true` or of
+    -- `false` (and be a var / raw / math tag); otherwise the inline-if is dropped
+    let outside := !skip && !sc.repush && !(sub.all (insideValues f))
     if skip then
       -- `storage->Drop(1)`: the current storage loses its last element
       if sc.repush then
         .ok { st with stack := .iif pre cs f :: rest, storage := sub.dropLast, isChild := true }
       else .ok { st with stack := rest, storage := pre, isChild := false }
+    else if outside then .ok { st with stack := rest, storage := pre, isChild := false }
     else
       let f := if f.trueOff < f.falseOff then { f with falseStart := trunc bits_InLineIfTag_FalseTagsStartID id }
                else { f with trueStart := trunc bits_InLineIfTag_TrueTagsStartID id }
@@ -355,7 +391,7 @@ def stepIif (cfg : ScanCfg R) (c : List Nat) (st : PState R) : Except Fault (PSt
   let st ← finderNext c st
   let endO := st.off
   let off ← skipW c endO (· == W1.spaceChar) offset
-  if off < endO && endO - off > W1.caseLength && (← isEqualAt c off W1.caseStr) then
+  if (← andEqualAt (decide (off < endO) && decide (endO - off > W1.caseLength)) c off W1.caseStr) then
     let off := off + W1.caseLength
     let off ← skipW c endO (· != W1.equalChar) off
     let off ← doSkipW c endO (· == W1.spaceChar) off
